@@ -277,8 +277,11 @@ func build(s *core.Shard, i int) *Case {
 		for vi, tok := range toks {
 			name := fmt.Sprintf("N%d_VAR%d", n.id, vi)
 			own := envOf(n)
-			mode := r.Intn(6)
+			mode := r.Intn(7)
 			if own == nil && (mode == 1 || mode == 2 || mode == 5) {
+				mode = 0
+			}
+			if mode == 6 && (own == nil || n.depth != 1) {
 				mode = 0
 			}
 			expr := "${" + name + "}"
@@ -293,6 +296,13 @@ func build(s *core.Shard, i int) *Case {
 			case 2: // both: the parent wins
 				topEnv[name] = tok
 				own[name] = "wrong-from-included-env"
+			case 6: // every directly included project defines the same name in its own env file with its own value:
+				// what one sibling's env file defines must not be visible to (let alone win in) another sibling
+				if _, taken := own[fmt.Sprintf("SIBLING_VAR%d", vi)]; !taken { // (siblings in one directory share their env file)
+					name = fmt.Sprintf("SIBLING_VAR%d", vi)
+				}
+				expr = "${" + name + "}"
+				own[name] = tok
 			case 5: // the parent defines it as empty: it is defined, the included env file must not replace it
 				topEnv[name] = ""
 				own[name] = "wrong-from-included-env-over-empty-parent-value"
@@ -612,7 +622,8 @@ func build(s *core.Shard, i int) *Case {
 	}
 	pastedDoc := docOf(one, pasted, nil, nil)
 
-	opts := ld.Opts{Profiles: []string{"*"}}
+	// a quarter of the cases run with a remote resource loader registered (it accepts nothing)
+	opts := ld.Opts{Profiles: []string{"*"}, RemoteLoader: i%4 == 3}
 	c.Pasted = ld.Case{Files: merge(common, map[string]string{"proj/compose.yaml": pastedDoc}), Dirs: dirs, ComposeFiles: []string{"proj/compose.yaml"}, WorkingDir: "proj", Env: topEnv, Opts: opts}
 	c.Dist = ld.Case{Files: merge(common, distFiles), Dirs: dirs, ComposeFiles: []string{"proj/compose.yaml"}, WorkingDir: "proj", Env: topEnv, Opts: opts}
 	var shape []string
